@@ -49,7 +49,7 @@ def affine_translation_scaling(ctx):
 
 
 @case("C08", "rotation.2d", ["s", "t"] + names("p", 3), mode="real", functions=["geometer.transformation.rotation", "geometer.transformation.affine_transform"],
-      assumptions=TRIG, timeout=60)
+      assumptions=TRIG, timeout=60, xcheck=False)
 def rotation_2d(ctx):
     geometer, gt = _g()
     s, t, p = ctx.sym("s"), ctx.sym("t"), ctx.vec("p", 3)
@@ -71,7 +71,7 @@ def rotation_2d(ctx):
 
 
 @case("C08", "rotation.3d", ["s", "t"] + names("a", 3), mode="real", functions=["geometer.transformation.rotation", "geometer.base.TensorDiagram.calculate", "geometer.utils.math.outer"],
-      assumptions=TRIG + ["np.linalg.norm leaf: generator n >= 0 with n**2 == a.a"], timeout=180, max_paths=64)
+      assumptions=TRIG + ["np.linalg.norm leaf: generator n >= 0 with n**2 == a.a"], timeout=180, max_paths=64, xcheck=False)
 def rotation_3d(ctx):
     """every axis direction: orthogonal, determinant 1, fixes the axis, turns by the angle (trace = 1 + 2 cos), additive in the angle"""
     geometer, gt = _g()
